@@ -51,6 +51,10 @@ func ZZC12Expect(script, varspec, drop, expect string) {
 	if drop != "" {
 		delete(e.varsMap, drop)
 	}
+	// "_meta=acc.key:value,...": account metadata held by the store
+	if ms := e.spec["_meta"]; ms != "" {
+		e.store.Meta = zzParseMeta(strings.ReplaceAll(ms, ":", "="))
+	}
 	res, err := e.pr.Run(context.Background(), e.varsMap, e.store)
 	cls := zzErrClass(err)
 	zzvrt.Note("result=" + cls)
